@@ -297,6 +297,20 @@ func removeIncludedTaxes(doc billable) error {
 	}
 	tpi := doc.getTax().PricesInclude
 
+	if err := checkNullRows(doc); err != nil {
+		return err
+	}
+	if doc.getTotals() == nil {
+		// nothing calculated yet, or nothing priced
+		if err := calculate(doc); err != nil {
+			return err
+		}
+		if doc.getTotals() == nil {
+			// nothing priced, so there are no taxes to remove
+			doc.getTax().PricesInclude = ""
+			return nil
+		}
+	}
 	totalWithTax := doc.getTotals().TotalWithTax
 
 	doc.setTotals(new(Totals))
